@@ -196,21 +196,34 @@ def bag_histories(BagOfHypotheses):
             if any(l is None for _, l in hy) and not all(l is None for _, l in hy):
                 hy = [(v, (l if l is not None else -2.0)) for v, l in hy]
             bag = BagOfHypotheses(lm_weight=w0)
+
+            def query(k, weights):
+                post = bag.posteriors()
+                ssum = sum(math.exp(p) for p in post)
+                c = bag.confidence()
+                tc = [bag.transcript_confidence('t%d' % j) for j in range(k)]
+                if abs(ssum - 1) > 1e-9 or any(p > 1e-12 for p in post):
+                    bad.append(('posteriors-sum-to-one', {'hyps': hy[:k], 'weights': weights}, 'posteriors %r sum to %r' % (post, ssum)))
+                if not (0 <= c <= 1 + 1e-12) or any(not (0 <= x <= 1 + 1e-12) for x in tc):
+                    bad.append(('bag-confidence-in-unit-interval', {'hyps': hy[:k], 'weights': weights}, 'confidence %r, transcript confidences %r' % (c, tc)))
+                if abs(c - max(tc)) > 1e-12:
+                    bad.append(('confidence-is-max-posterior', {'hyps': hy[:k], 'weights': weights}, 'confidence %r vs %r' % (c, tc)))
+
             for step, (v, l) in enumerate(hy):
                 bag.add('t%d' % step, v, l)
                 if step == 1:
                     bag.lm_weight = w1
                 n += 1
-                post = bag.posteriors()
-                ssum = sum(math.exp(p) for p in post)
-                c = bag.confidence()
-                tc = [bag.transcript_confidence('t%d' % j) for j in range(step + 1)]
-                if abs(ssum - 1) > 1e-9 or any(p > 1e-12 for p in post):
-                    bad.append(('posteriors-sum-to-one', {'hyps': hy[:step + 1], 'weights': [w0, w1]}, 'posteriors %r sum to %r' % (post, ssum)))
-                if not (0 <= c <= 1 + 1e-12) or any(not (0 <= x <= 1 + 1e-12) for x in tc):
-                    bad.append(('bag-confidence-in-unit-interval', {'hyps': hy[:step + 1], 'weights': [w0, w1]}, 'confidence %r, transcript confidences %r' % (c, tc)))
-                if abs(c - max(tc)) > 1e-12:
-                    bad.append(('confidence-is-max-posterior', {'hyps': hy[:step + 1], 'weights': [w0, w1]}, 'confidence %r vs %r' % (c, tc)))
+                query(step + 1, [w0, w1])
+            # the weight of an already queried bag is changed with no add in between (seeded change C16r: a normaliser cached
+            # by the first query and dropped only by add()), then the bag is re-ordered and queried once more
+            for w2 in (0.0, 2.5, w0):
+                bag.lm_weight = w2
+                n += 1
+                query(len(hy), [w0, w1, w2])
+            bag.sort()
+            n += 1
+            query(len(hy), [w0, w1, w0, 'sorted'])
             if bag.transcript_confidence('absent') != 0.0:
                 bad.append(('bag-confidence-in-unit-interval', {'hyps': hy}, 'absent transcript has confidence'))
     return n, bad
@@ -313,7 +326,7 @@ def run(ctx):
         if s not in seen:
             seen.add(s)
             fails.append(Failure(s, 'bag contract %s fails: %s on %s' % (clause, detail, inp), function='BagOfHypotheses.posteriors', input=inp, observed=detail, clause=clause))
-    ctx.add_bounded('bag-histories', 'all ordered triples of 5 hypotheses added one by one, weight changed after the second add, queried after every step; with and without LM scores',
+    ctx.add_bounded('bag-histories', 'all ordered triples of 5 hypotheses added one by one, weight changed after the second add, queried after every step, then re-weighted three times with no add in between and re-ordered, queried after each; with and without LM scores',
                     nb + 3, nb, True, [{'hyps': [(-0.2, -1.0), (-3.0, -0.1)], 'weights': [0.0, 2.5]}], fails,
                     rule='every history of the domain; non-trivial = every query point', clause='posteriors sum to 1; confidences in [0,1]; confidence = max posterior; one-hot = 1')
     mats = bounded.order(matrices(np, thorough), ctx.seed)
